@@ -72,6 +72,32 @@ where
     out
 }
 
+/// Run one case on a multi-threaded runtime with the real clock (nothing timed is exercised there):
+/// the library's tasks and the case's own tasks then run truly in parallel.  `f` is polled on the
+/// calling thread, so the thread-local EPMD port override is seen by `Node::start`.
+pub fn run_case_mt<T, F, Fut>(workers: usize, real_cap: Duration, f: F) -> Result<T, BedErr>
+where
+    F: FnOnce(Bed) -> Fut,
+    Fut: Future<Output = T>,
+{
+    let rt = tokio::runtime::Builder::new_multi_thread().worker_threads(workers).enable_all().build().map_err(|e| BedErr::Setup(e.to_string()))?;
+    let out = rt.block_on(async {
+        let bed = match Bed::new().await {
+            Ok(b) => b,
+            Err(e) => return Err(BedErr::Setup(e)),
+        };
+        edp_client::verif::set_epmd_port(Some(bed.epmd_port));
+        let r = match tokio::time::timeout(real_cap, f(bed)).await {
+            Ok(r) => Ok(r),
+            Err(_) => Err(BedErr::RealTimeCap),
+        };
+        edp_client::verif::set_epmd_port(None);
+        r
+    });
+    rt.shutdown_timeout(Duration::from_millis(200));
+    out
+}
+
 pub async fn advance(d: Duration) {
     tokio::time::advance(d).await;
     drain().await;
